@@ -248,16 +248,33 @@ CHECKS["C18"] = dict(
     technique="symbolic execution of clang's LLVM IR of the generated C++ CAN wrapper (own interpreter, JSON conversions modelled) + SMT validity",
 )
 
+CHECKS["C13"] = dict(
+    engine="llsym",
+    category="model_checking",
+    text="For every schema of a family the real generator's dynamic.h/reflection.h/fcp.h are compiled with a harness TU (clang++ -O1 to "
+         "IR); the binary reflection is produced by the real FcpV2.reflection() + serde.encode. llsym interprets "
+         "DynamicSchema::LoadBinarySchema on that binary (concrete), then, with symbolic field values, StaticSchema::EncodeJson vs "
+         "DynamicSchema::EncodeJson on the same JSON value and StaticSchema::DecodeJson vs DynamicSchema::DecodeJson on the canonical "
+         "bytes of the value - nlohmann::json, std::map, std::string and the codecs themselves are all interpreted, nothing of them "
+         "is modelled. Obligation: both sides give the same bytes / the same value (or both fail) on every path for every "
+         "in-range value; enumerators are spelled as names towards the dynamic side and compared by number.",
+    design_ref="DESIGN.md §4 C13",
+    note="Native models only for out-of-line libstdc++/libc functions (verif/cxxnatives.py): red-black tree insertion without "
+         "rebalancing (same in-order sequence) and exact increment/decrement, basic_string members, strtol, log2, "
+         "std::to_string. Outside the claim: Optional of a container/str, undeclared enumerator numbers, NaN payloads, "
+         "non-canonical byte strings, file I/O of LoadBinarySchemaFromFile. One open known finding "
+         "(KF-DYN-ENCODE-BYTE-ALIGNED: the run-time encoder pads every field to a byte) is excluded by its exact effect - the "
+         "dynamic output equals the per-field byte-aligned encoding - so any other difference is still reported. "
+         "Counterexamples are replayed with the same TU compiled natively (clang++ and g++).",
+    technique="symbolic execution of clang's LLVM IR of the generated run-time and static C++ codecs incl. nlohmann::json (own interpreter) + SMT equivalence",
+)
+
 NOT_APPLICABLE = {
     "C07": "Subject is the Lark Earley parser with a dynamic regex lexer over all texts: it cannot be executed "
            "symbolically by CrossHair or by the proxy engine within reach (DESIGN.md §6); grammar-based generation would "
            "decide it but is a different technique.",
     "C11": "Same subject as C07 (every string through Lark) plus exception plumbing; the failing inputs are classes of "
            "texts, not values a solver ranges over (DESIGN.md §6).",
-    "C13": "Only observable through DynamicSchema::EncodeJson/DecodeJson(name, nlohmann::json): symbolic execution would have to "
-           "go through nlohmann::json's variant machinery, std::map (out-of-line red-black tree) and ~15 libstdc++/libc "
-           "functions (string internals, strtol, vsnprintf, log2) that need validated native models in the IR interpreter; "
-           "that surface is not encoded (DESIGN.md §6a). Not replaced by a concrete differential test.",
     "C17": "Quantifies over interpreter state (PYTHONHASHSEED, process history), not over data the code computes on; "
            "there is no symbolic input to hand to a solver (DESIGN.md §6).",
 }
